@@ -1818,6 +1818,17 @@ class KmipEngine(object):
                     )
                 )
 
+            if current_attribute is not None:
+                if current_attribute.tag != new_attribute.tag:
+                    raise exceptions.KmipError(
+                        status=enums.ResultStatus.OPERATION_FAILED,
+                        reason=enums.ResultReason.ATTRIBUTE_NOT_FOUND,
+                        message=(
+                            "The specified current attribute is not an "
+                            "instance of the attribute to be modified."
+                        )
+                    )
+
             is_multivalued = self._attribute_policy.is_attribute_multivalued(
                 attribute_name
             )
